@@ -873,7 +873,7 @@ def c16_modular(prog, lmax):
         out = []
         ex = v1sum.new_exec(prog, [ctx], lmax)
         ex.suffix = ''
-        ex.hooks = hooks
+        ex.hooks = list(hooks) + list(ex.hooks)
         run0 = v1sum.runner(prog, kind, ctx)
 
         def run(e):
